@@ -648,6 +648,10 @@ class SeqAbstraction:
                 out.append(f"(assert (forall ((x {el})) (! (= (alen_{ss} (aunit_{ss} x)) 1) :pattern ((aunit_{ss} x)))))")
                 if "anth_" + ss in self.funs:
                     out.append(f"(assert (forall ((x {el})) (! (= (anth_{ss} (aunit_{ss} x) 0) x) :pattern ((aunit_{ss} x)))))")
+            if "aextract_" + ss in self.funs:
+                out.append(f"(assert (forall ((a {ss}) (o Int) (l Int)) (! (=> (and (<= 0 o) (<= 0 l) (<= (+ o l) (alen_{ss} a))) (= (alen_{ss} (aextract_{ss} a o l)) l)) :pattern ((aextract_{ss} a o l)))))")
+                if "anth_" + ss in self.funs:
+                    out.append(f"(assert (forall ((a {ss}) (o Int) (l Int) (i Int)) (! (=> (and (<= 0 o) (<= 0 i) (< i l) (<= (+ o l) (alen_{ss} a))) (= (anth_{ss} (aextract_{ss} a o l) i) (anth_{ss} a (+ o i)))) :pattern ((anth_{ss} (aextract_{ss} a o l) i)))))")
             if "acat_" + ss in self.funs:
                 out.append(f"(assert (forall ((a {ss}) (b {ss})) (! (= (alen_{ss} (acat_{ss} a b)) (+ (alen_{ss} a) (alen_{ss} b))) :pattern ((acat_{ss} a b)))))")
                 if "anth_" + ss in self.funs:
